@@ -5,7 +5,7 @@ from core import nats, natlists, hx, hexlist, b01, exc_kind, safe_check
 import dbutil
 
 PROPS = ('GambitV.Props.C06', 'GambitV.C06')
-TIE = [('GambitV.Tie.PyFindKmers', 'GambitV.Tie.Py'), ('GambitV.Tie.PyCalcSig', 'GambitV.Tie.Py'), ('GambitV.Tie.PyIo', 'GambitV.Tie.Py'), ('GambitV.Tie.PyBindKmers', 'GambitV.Tie.Py'), ('GambitV.Tie.PyCalcFile', 'GambitV.Tie.Py'), ('GambitV.Tie.PyAccFacts', 'GambitV.Tie.Py'), ('GambitV.Tie.PyIoFlow', 'GambitV.Tie.Py')]
+TIE = [('GambitV.Tie.PyFindKmers', 'GambitV.Tie.Py'), ('GambitV.Tie.PyCalcSig', 'GambitV.Tie.Py'), ('GambitV.Tie.PyIo', 'GambitV.Tie.Py'), ('GambitV.Tie.PyBindKmers', 'GambitV.Tie.Py'), ('GambitV.Tie.PyCalcFile', 'GambitV.Tie.Py'), ('GambitV.Tie.PyAccFacts', 'GambitV.Tie.Py'), ('GambitV.Tie.PyIoFlow', 'GambitV.Tie.Py'), ('GambitV.Tie.PySigClasses', 'GambitV.Tie.Py')]
 RULE = ('(multi-contig genome, variant) where a variant applies any of: reverse-complement of any subset of contigs, contig permutation, case pattern '
         '(upper / lower / random), line width in {1, 2, 7, 60, 80, none}, LF / CRLF, with / without final newline, plain / gzip / multi-member gzip, an unrelated '
         'truncated file failing just before, contigs > 2^20 nt with occurrences planted across power-of-two offsets on either strand, file extension independent of the '
